@@ -64,11 +64,58 @@ def run(tier, seed, rng):
         for _ in range(rng.randint(1, 3)):
             h.append((rng.random() < 0.5, [dict(variant=rng.choice(VARS), forge_mtime=rng.random() < 0.2) for _ in range(rng.randint(1, 4))]))
         hists.append(h)
+    # ---- declarations whose generated sources are permutations of one another (two field names exchanged): same length, same
+    # bytes, same sums -- what a size / time stamp / checksum comparison cannot tell apart.  Names over digits 0..2 (all pairs with
+    # equal digit sums), the first declaration cached, the second defined in the same and in a fresh process
+    import json as _json
+    def custom(body, conf='{}'):
+        return 'custom:' + _json.dumps(dict(conf=conf, body=body), sort_keys=True)
+    digs = [f"{a}{b}{c}" for a in '012' for b in '012' for c in '012']
+    anagrams = [(x, y) for i, x in enumerate(digs) for y in digs[i + 1:] if sum(map(int, x)) == sum(map(int, y))]
+    if tier == 'quick':
+        anagrams = [p for k, p in enumerate(anagrams) if k % 2 == seed % 2 or p in (('121', '202'), ('020', '101'), ('010', '001'))]
+    for x, y in anagrams:
+        v1 = custom(f"r_{x} = Int(1)\n    r_{y} = Int(2)")
+        v2 = custom(f"r_{y} = Int(1)\n    r_{x} = Int(2)")
+        hists.append([(False, [dict(variant=v1)]), (False, [dict(variant=v2)])])
+        hists.append([(True, [dict(variant=v2), dict(variant=v1)])])
+    # ---- survey of the constant the generated module is recognised by: many declarations, any two with the same constant but
+    # different code are a collision; each collision found is then run as a history like the ones above
+    nsurvey = 1500 if tier == 'quick' else 40000
+    kinds = ['Int(1)', 'Int(2)', 'Int(4)', 'Data(2)', "Int(2, endianness='little')"]
+    survey = []
+    for k in range(nsurvey):
+        nf = rng.randint(1, 3)
+        survey.append(custom("\n    ".join(f"{rng.choice('abcdr')}{rng.choice('_xyz')}{rng.randrange(1000)}{'_' * i} = {rng.choice(kinds)}" for i in range(nf))))
+    survey = sorted(set(survey))
+    collisions = []
+    with Scratch('c15s') as d:
+        from concurrent.futures import ThreadPoolExecutor as _TPE
+        parts = shard(survey, len(survey) // NPROC + 1)
+        def one(ip):
+            i, part = ip
+            sub = os.path.join(d, f's{i}')
+            os.makedirs(sub)
+            rc, o, log = cachelib.run_proc(sub, part, mode='cookies', tag='cs')
+            return o['cookies'] if o else [[None, 'EXC:process']] * len(part)
+        with _TPE(max_workers=NPROC) as ex:
+            cks = [c for res in ex.map(one, list(enumerate(parts))) for c in res]
+    seen = {}
+    for v, (ck, digest) in zip(survey, cks):
+        if ck is None or digest.startswith('EXC'):
+            continue
+        if ck in seen and seen[ck][1] != digest:
+            collisions.append((seen[ck][0], v))
+        seen.setdefault(ck, (v, digest))
+    for v1, v2 in collisions[:20]:
+        hists.append([(False, [dict(variant=v1)]), (False, [dict(variant=v2)])])
+        hists.append([(False, [dict(variant=v2)]), (False, [dict(variant=v1)])])
     from concurrent.futures import ThreadPoolExecutor
     with ThreadPoolExecutor(max_workers=NPROC) as ex:
         results = list(ex.map(run_history, hists))
     failures, lines = [], []
-    dist = dict(definitions=0, hits=0, rewrites=0, processes=0, forged=0, generation_off=0)
+    dist = dict(definitions=0, hits=0, rewrites=0, processes=0, forged=0, generation_off=0, permuted_pairs=len(anagrams), surveyed=len(seen), survey_collisions=len(collisions))
+    cid = {}
     for h, res in zip(hists, results):
         flat, obs = [], []
         forged = any(s.get('forge_mtime') for _, steps in h for s in steps)
@@ -92,7 +139,7 @@ def run(tier, seed, rng):
                 obs.append(rew)
         if not forged:
             # the model predicts, for fresh time stamps, exactly which definitions rewrite the cache file
-            hs = "[" + "; ".join(f"({-1 if v == 'Aoff' else VID[v]}, {k + 1}%nat)" for k, v in enumerate(flat)) + "]"
+            hs = "[" + "; ".join(f"({-1 if v == 'Aoff' else (VID[v] if v in VID else cid.setdefault(v, 100 + len(cid)))}, {k + 1}%nat)" for k, v in enumerate(flat)) + "]"
             lines.append((hs + ", [" + "; ".join('true' if x else 'false' for x in obs) + "]", h))
     files = [(f"c15_{i}", HEADER_COQ + "Definition cases : list (list (Z * nat) * list bool) := [\n" + ";\n".join("(" + l + ")" for l, _ in part) +
               "\n].\nEval vm_compute in (bad 0 cases).\n") for i, part in enumerate(shard(lines, 200))]
